@@ -48,6 +48,7 @@ def make_spec(st, idx, tier):
         C.make_live_frame_night(spec)
     else:
         C.add_unrequested_gaps(st, spec, p=0.04)
+        C.feed_as_lists_polls(st, spec)
     return spec
 
 
@@ -185,6 +186,8 @@ class Checker(C.BaseChecker):
             st.probes["outlier_model_flagged"] += 1
         if ex.spec.get("feed_stats", {}).get("unrequested_gaps"):
             st.probes["night_with_gaps_in_unrequested_columns"] += 1
+        if rec.extra.get("feed_passed_as_lists"):
+            st.probes["poll_with_the_feed_passed_as_list_of_lists"] += 1
         if rec.extra.get("feed_frame_reused_in_place"):
             st.probes["poll_on_a_feed_frame_updated_in_place"] += 1
         mp = p["model_parameters"]
